@@ -82,6 +82,13 @@ def main(prop, tier):
             tally.add('events', rec.get('events') or 0)
             if rec.get('workers_used', 0) >= 2:
                 tally.add('probe_runs_with_2plus_workers_used')
+            if c.get('pre_run'):
+                tally.add('probe_runs_preceded_by_an_earlier_run_in_the_same_driver_process')
+            if c.get('second_driver'):
+                tally.add('probe_runs_with_a_second_concurrent_driver_process')
+            if (rec.get('pools') or 0) > 1:
+                tally.add('probe_runs_using_more_than_one_pool')
+            tally.add('embedded_reports', rec.get('embedded_reports_compared') or 0)
             if rec.get('failed_iterations'):
                 tally.add('probe_runs_with_failed_iterations')
             if rec.get('explained_loss'):
@@ -217,6 +224,10 @@ def main(prop, tier):
             'seam_events': tally.c['events'],
             'result_rows_checked': tally.c['rows'],
             'rows_resimulated': tally.c['rows_replayed'],
+            'monte_carlo_embedded_reports_compared_with_client': tally.c['embedded_reports'],
+            'lock_protocol': ('pylocker acquisitions observed: %d (0 means the driver under test does not use the file lock, as on the '
+                              'repaired tree where the parent is the only writer; stale_lock then has nothing to act on)'
+                              % sum(v for k_, v in tally.c.items() if k_.startswith('probe_acquire_code_'))),
             'distinct_interleavings': len(interleavings),
             'distinct_task_to_worker_assignments': len(assignments),
             'strict_runs': tally.c['mode_strict'], 'extended_runs': tally.c['mode_extended'],
